@@ -233,6 +233,14 @@ func inconclusive(f failer, msg string) {
 // normal duration) counts as not terminating; everywhere else it is inconclusive.
 var busyIsViolation bool
 
+// busyIsInconclusive ends the run as inconclusive when a watchdog verdict only says "still
+// running after the budget" and the property is not one about termination.
+func busyIsInconclusive(f failer, h *observe.HangError) {
+	if h != nil && h.Verdict == live.Timeout && !busyIsViolation {
+		inconclusive(f, h.Detail)
+	}
+}
+
 func checkObs(f failer, err error, what string) {
 	if err == nil {
 		return
@@ -261,6 +269,7 @@ func rapidHistoryOpts(t *rapid.T, prop string, cfg world.Cfg, weights map[string
 	// one non-empty member in ten has a source that cannot be opened; one path operand of the
 	// filesystem-level calls in eight is spelled relative to the root (d/f, ./d/f)
 	g.FailingSources, g.RelSpell = 10, 8
+	g.HugeTruncates = cfg.Compression == "" && cfg.Encryption == ""
 	if v := os.Getenv("VERIF_FAILSRC"); v != "" {
 		g.FailingSources, _ = strconv.Atoi(v)
 	}
